@@ -948,10 +948,13 @@ type kickAction struct {
 var errEmptyId = group.ProtocolError("empty id")
 
 func remove(v string, l []string) []string {
-	for i, w := range l {
-		if v == w {
+	// a permission list may contain duplicates (e.g. a token created
+	// with ["present", "present"]): remove every occurrence
+	for i := 0; i < len(l); {
+		if l[i] == v {
 			l = append(l[:i], l[i+1:]...)
-			return l
+		} else {
+			i++
 		}
 	}
 	return l
